@@ -574,10 +574,30 @@ class Executor:
 
     def stmt_If(self, node):
         c = self.truth(self.eval(node.test))
-        if self.choose(c):
+        taken = self.choose(c)
+        self._narrow_none(node.test, taken)
+        if taken:
             self.exec_block(node.body)
         else:
             self.exec_block(node.orelse)
+
+    def _narrow_none(self, test, taken):
+        """`if x is not None:` / `if x is None:` on a local Optional: in the branch where x is known not to
+        be None the name denotes the inner value (flow typing; the path condition already says so)"""
+        if isinstance(test, ast.BoolOp) and isinstance(test.op, ast.And) and taken:
+            for t in test.values:
+                self._narrow_none(t, True)
+            return
+        if not (isinstance(test, ast.Compare) and len(test.ops) == 1 and isinstance(test.left, ast.Name)):
+            return
+        cmp = test.comparators[0]
+        if not (isinstance(cmp, ast.Constant) and cmp.value is None):
+            return
+        op = test.ops[0]
+        notnone = (isinstance(op, (ast.IsNot, ast.NotEq)) and taken) or (isinstance(op, (ast.Is, ast.Eq)) and not taken)
+        v = self.st.env.get(test.left.id)
+        if notnone and isinstance(v, VOptional):
+            self.st.env[test.left.id] = v.val
 
     def stmt_Assign(self, node):
         v = self.eval(node.value)
@@ -1768,6 +1788,12 @@ class Executor:
             g.kind = "goal"
             g.formula = fv
             return g
+        if isinstance(f, VOpaque) and getattr(f, "kind", None) == "pyfun" and not node.keywords:
+            # a callable passed in as an argument, modelled as a mathematical function of its int arguments (TB-py)
+            av = [self.eval(a) for a in node.args]
+            if not all(isinstance(a, VInt) for a in av) or len(av) != f.fn.arity():
+                raise Unsupported("call of a function parameter with these arguments")
+            return VInt(f.fn(*[a.t for a in av]))
         if not isinstance(f, VCallable):
             raise Unsupported(f"call of {f.ty}")
         if any(isinstance(a, ast.Starred) for a in node.args) or any(k.arg is None for k in node.keywords):
